@@ -52,15 +52,33 @@ def run(ctx):
         if f is None:
             continue
         ev = evaluate(f)
-        hs = [s for s in ev.sites.values() if s.callee[0] == "HashToScalar::hash_to_scalar"]
         got = set()
-        for s in hs:
-            st = B.peel(s.args[1])
+        for _m, _salt in K.hash_to_scalar_calls(P, f):
+            st = B.peel(_salt)
             if st.op == "named" and st.a[2].op == "const":
                 got.add(bytes.fromhex(st.a[2].a[1]).decode("latin-1"))
             else:
                 got.add("?" + show(strip_sites(st), 3))
         ctx.ob("E1.salt-route", fk, got == {pinned["salts"][salt_key]}, "hash_to_scalar salt(s) in %s = %s (pinned %r)" % (fk, sorted(got), pinned["salts"][salt_key]), where=where(f))
+    # the tag an own-protocol construction hashes under, per scheme: the scheme's *signature* tag (pinned by the IETF
+    # table in E1) - also when the producing and the consuming side are changed together
+    from . import spec as SP
+
+    nt = 0
+    for fk, sinks in (
+        ("PublicKey<C>::sign_crypt", ("BlsSignCrypt::seal",)),
+        ("SignCryptCiphertext<C>::is_valid", ("BlsSignCrypt::valid",)),
+        ("SignCryptCiphertext<C>::decrypt", ("BlsSignCrypt::unseal",)),
+        ("SignCryptCiphertext<C>::decrypt_with_shares", ("BlsSignCrypt::unseal_with_shares",)),
+        ("SignCryptDecryptionKey<C>::decrypt", ("BlsSignCrypt::valid",)),
+        ("SignDecryptionShare<C>::verify", ("BlsSignCrypt::verify_share",)),
+        ("PublicKey<C>::encrypt_time_lock", ("BlsTimeCrypt::seal",)),
+    ):
+        f = ctx.need_fn("E2.tag-by-scheme", fk)
+        if f is not None:
+            k_ = SP.check_tag_by_scheme(ctx, "E2.tag-by-scheme", P, f, sinks, -1, purpose="sig")
+            ctx.ob("E2.tag-by-scheme", fk + "/all-schemes", k_ >= 3, "%s selects the tag for %s by the scheme in %d of 3 schemes" % (fk, sinks[0], k_), where=where(f))
+            nt += k_
     # constructions
     K.check_keygen(_Sub(ctx, ("E5.keygen.hash", "E5.keygen.salt", "E5.keygen.ikm", "E5.keygen.info", "E5.keygen.len", "E5.keygen.prk", "E5.keygen.okm", "E5.keygen.ret", "E5.keygen.route", "E5.keygen.anchor")), P, rule="E5.keygen")
     PR.check_compute_y(ctx, "E5.challenge", P)
